@@ -345,6 +345,14 @@ class Interp:
 
     def analyse(self):
         f = self.f
+        # default values of a nested function / lambda are evaluated in the enclosing scope when the
+        # definition is executed (`lambda x, g=g: ...`): a parameter that call sites leave unbound
+        # holds that value
+        dflt = {}
+        if f.parent is not None:
+            for name, d in f.defaults().items():
+                if d is not None and not isinstance(d, ast.Constant):
+                    dflt[name] = self.ev(d)
         for i, p in enumerate(f.allparams):
             if f.is_method and i == 0:
                 cls = f.cls
@@ -356,6 +364,8 @@ class Interp:
                 self.env[p] = AV(own=[("P", f.qual, p)], elem=[("PE", f.qual, p)],
                                  funcs=self.eng.PARAMFUNCS[(f.qual, p)],
                                  classes=self.eng.PARAMCLS[(f.qual, p)])
+                if p in dflt:
+                    self.env[p] = self.env[p].join(dflt[p])
         if f.is_lambda:
             v = self.ev(f.node.body)
             self.set_ret(v)
